@@ -134,6 +134,27 @@ def search(func, candidate, seed, tier, obligation=''):
                     return fail({'source_history': variant, 'operation': 'copy of the first %d transactions, then of '
                                  'iterator(start=last copied tid + 1)' % k}, 'identical history (%d transactions)'
                                 % len(hist), '%d transactions: tids %r' % (len(got), [t.hex() for t, _ in got]), cases)
+            # ---- a partial copy into an EMPTY destination: the data_txn hint of a back-pointer record may name a
+            # transaction the destination does not have; the hint is then ignored and the data written in full
+            for k in range(1, len(hist)):
+                cases += 1
+                dpath = os.path.join(d, 'part%d.fs' % k)
+                dst = H.FileStorage(dpath, create=True)
+                try:
+                    dst.copyTransactionsFrom(src.iterator(hist[k][0]))
+                    got = H.storage_history(dst)
+                except Exception as e:  # noqa
+                    got = '%s: %s' % (type(e).__name__, str(e)[:120])
+                dst.close()
+                for ext in ('', '.index', '.tmp', '.lock'):
+                    if os.path.exists(dpath + ext):
+                        os.remove(dpath + ext)
+                if got != hist[k:]:
+                    src.close()
+                    return fail({'source_history': variant, 'operation': 'copyTransactionsFrom(source.iterator(start='
+                                 'tid of transaction #%d)) into an empty FileStorage' % k},
+                                'the last %d transactions with identical records' % (len(hist) - k),
+                                got if isinstance(got, str) else '%d transactions' % len(got), cases)
             src.close()
             # ---- recover the undamaged file
             out = os.path.join(d, 'rec.fs')
@@ -198,7 +219,51 @@ def search(func, candidate, seed, tier, obligation=''):
         finally:
             shutil.rmtree(d, ignore_errors=True)
     r = blob_copy(cases)
-    return r
+    if r.get('found'):
+        return r
+    return other_sources(r['cases'])
+
+
+def other_sources(cases):
+    """all source storage kinds: a MappingStorage, and a DemoStorage over one, copied into a FileStorage"""
+    import transaction
+    import ZODB
+    from persistent.mapping import PersistentMapping
+    from ZODB.DemoStorage import DemoStorage
+    from ZODB.MappingStorage import MappingStorage
+    for kind in ('mapping', 'demo-over-mapping'):
+        d = tempfile.mkdtemp(prefix='c17m-')
+        try:
+            base = MappingStorage()
+            db = ZODB.DB(base)
+            tm = transaction.TransactionManager()
+            conn = db.open(tm)
+            for k in range(3):
+                conn.root()['k%d' % k] = PersistentMapping({'v': k})
+                tm.get().note('txn %d' % k)
+                tm.get().setExtendedInfo('n', k)
+                tm.commit()
+            conn.close()
+            src = base if kind == 'mapping' else DemoStorage(base=base)
+            want = [(t.tid, t.user, t.description, dict(t.extension),
+                     sorted((r.oid, r.data) for r in t)) for t in src.iterator()]
+            dst = H.FileStorage(os.path.join(d, 'dst.fs'), create=True)
+            cases += 1
+            try:
+                dst.copyTransactionsFrom(src)
+                got = [(t.tid, t.user, t.description, dict(t.extension),
+                        sorted((r.oid, r.data) for r in t)) for t in dst.iterator()]
+            except Exception as e:  # noqa
+                got = '%s: %s' % (type(e).__name__, str(e)[:160])
+            dst.close()
+            if got != want:
+                return fail({'operation': 'copyTransactionsFrom %s -> file' % kind, 'source_history':
+                             '4 transactions with description and extension'},
+                            'identical history (%d transactions, ids, metadata, records)' % len(want),
+                            got if isinstance(got, str) else 'differs: %d transactions' % len(got), cases)
+        finally:
+            shutil.rmtree(d, ignore_errors=True)
+    return {'found': False, 'cases': cases}
 
 
 def blob_copy(cases):
